@@ -92,6 +92,10 @@ def execute(mod, choices=None, seed=None):
     res['shape'] = hashlib.blake2b(repr(ctx.shape).encode(), digest_size=8).hexdigest()
     res['sample'] = ctx.sample
     res['notes'] = ctx.notes
+    res['digest'] = int.from_bytes(hashlib.blake2b(repr((ch.values, ctx.shape, sorted(ctx.counts.items()),
+                                                         res['violation'] and res['violation']['sig'],
+                                                         res['aborted'] and res['aborted']['sig'])).encode(),
+                                                   digest_size=8).digest(), 'big')
     return res
 
 
@@ -100,7 +104,7 @@ def _worker(args):
     faulthandler.dump_traceback_later(max(60, deadline - time.time() + 120), exit=True)
     mod = __import__(modname, fromlist=['x'])
     out = {'done': 0, 'counts': {}, 'faults': {}, 'shapes': set(), 'nontrivial': 0, 'violations': [],
-           'aborted': {}, 'samples': [], 'abort_examples': {}, 'harness': None, 'choices_total': 0}
+           'aborted': {}, 'samples': [], 'abort_examples': {}, 'harness': None, 'choices_total': 0, 'digest': 0}
     for r in runs:
         if time.time() > deadline:
             break
@@ -111,6 +115,7 @@ def _worker(args):
             out['harness'] = {'run': r, 'trace': traceback.format_exc()}
             break
         out['done'] += 1
+        out['digest'] = (out['digest'] + res['digest']) % (1 << 64)
         out['choices_total'] += len(res['choices'])
         for k, v in res['counts'].items():
             out['counts'][k] = out['counts'].get(k, 0) + v
@@ -275,7 +280,7 @@ def main(mod, argv=None):
     chunks = [list(range(i, min(runs, i + chunk))) for i in range(0, runs, chunk)]
     print(f'[{mod.ID}] VERIF_SEED={seed} tier={tier} runs={runs} workers={workers} pokerkit={boot.ROOT}', flush=True)
     agg = {'done': 0, 'counts': {}, 'faults': {}, 'shapes': set(), 'nontrivial': 0, 'violations': [],
-           'aborted': {}, 'samples': [], 'abort_examples': {}, 'choices_total': 0}
+           'aborted': {}, 'samples': [], 'abort_examples': {}, 'choices_total': 0, 'digest': 0}
     harness = None
     ctxmp = multiprocessing.get_context('fork')
     with ProcessPoolExecutor(max_workers=workers, mp_context=ctxmp) as ex:
@@ -289,6 +294,7 @@ def main(mod, argv=None):
             if out['harness'] and harness is None:
                 harness = out['harness']
             agg['done'] += out['done']
+            agg['digest'] = (agg['digest'] + out['digest']) % (1 << 64)
             agg['nontrivial'] += out['nontrivial']
             agg['choices_total'] += out['choices_total']
             agg['shapes'] |= out['shapes']
@@ -340,6 +346,8 @@ def main(mod, argv=None):
             'known_findings_seen': known_hits,
             'components': getattr(mod, 'COMPONENTS', {}),
             'workers': workers,
+            'batch_digest': '%016x' % agg['digest'],
+            'pythonhashseed': os.environ.get('PYTHONHASHSEED'),
             'exhaustive': False,
         },
         'assumptions': list(mod.ASSUMPTIONS),
@@ -351,7 +359,7 @@ def main(mod, argv=None):
     with open(os.path.join(edir, f'{mod.ID}.json'), 'w') as f:
         json.dump(jsonable(evidence), f, indent=1)
     print(f'[{mod.ID}] runs={agg["done"]}/{runs} nontrivial={agg["nontrivial"]} distinct={len(agg["shapes"])} '
-          f'aborted={sum(agg["aborted"].values())} violations={len(fresh)} known={sum(known_hits.values())} wall={wall:.1f}s', flush=True)
+          f'aborted={sum(agg["aborted"].values())} violations={len(fresh)} known={sum(known_hits.values())} digest={agg["digest"]:016x} wall={wall:.1f}s', flush=True)
     if agg['done'] == 0:
         print(f'HARNESS-ERROR property={mod.ID} no run completed')
         return 2
